@@ -204,7 +204,7 @@ def all_selections(sc, rng, tier):
 
 def precision_part(chk, exprs):
     rng = chk.rng
-    n = 30 if chk.tier == "quick" else 500
+    n = 60 if chk.tier == "quick" else 500
     nsel = 0
     for i in range(n):
         d = session.scratch_dir()
